@@ -43,3 +43,30 @@ Theorem C06_converged_guess_without_early_exit_refuted :
   exists r, krylov nat nat Nat.ltb S (fun x => x) (fun x => x) (fun _ => 5) 3 false 0 = Some r /\ rx r <> 0.
 Proof. eexists. split; [vm_compute; reflexivity|]. cbn. discriminate. Qed.
 Print Assumptions C06_converged_guess_without_early_exit_refuted.
+
+(* ---- the GMRES family (gmres_mgs, gmres_householder, fgmres): outer/inner loops with the Givens estimate ---- *)
+Require Import PV.Model.GmresCtl PV.Proofs.GmresCtlProofs.
+From Coq Require Import ZArith.
+(* for EVERY sequence of estimates, recomputed norms and stagnation flags, with at least one outer and one inner
+   iteration allowed and every Arnoldi step counted: the history has one entry per callback plus the initial one;
+   status 0 only if the last history entry is below the threshold; a positive status is the number of Arnoldi steps
+   performed and then the last entry is not below the threshold; the only other status is -1 *)
+Theorem C06_gmres_status_truthful : forall (F : Type) (ltb : F -> F -> bool) (thr : F) (max_outer max_inner : nat)
+  (est tru : nat -> nat -> F) (stag : nat -> nat -> bool) (r0 : F),
+  1 <= max_inner -> 1 <= max_outer ->
+  let '(st, s') := gmres_ctl F ltb thr true max_outer max_inner est tru stag r0 in
+  length (hist s') = S (ncb s') /\
+  (st = 0%Z -> last_lt F ltb thr s') /\
+  ((0 < st)%Z -> st = Z.of_nat (steps s') /\ last_ge F ltb thr s') /\
+  (st = (-1)%Z \/ (0 <= st)%Z).
+Proof. intros F ltb thr mo mi est tru stag r0 Hi Ho. exact (gmres_status_truthful F ltb thr mo mi est tru stag Hi r0 Ho). Qed.
+Print Assumptions C06_gmres_status_truthful.
+(* counting an Arnoldi step only after the convergence test did not fire (fgmres before its repair, F23) is refuted:
+   the inner loop stops at its first step on an estimate below the threshold, the recomputed norm 5 is not below
+   the threshold 1, no outer iteration is left, and the status is 0 *)
+Theorem C06_gmres_count_after_test_refuted :
+  exists (est tru : nat -> nat -> nat),
+  let '(st, s') := gmres_ctl nat Nat.ltb 1 false 1 2 est tru (fun _ _ => false) 7 in
+  st = 0%Z /\ steps s' = 1 /\ hist s' = [7; 5] /\ Nat.ltb 5 1 = false.
+Proof. exact gmres_count_after_test_refuted. Qed.
+Print Assumptions C06_gmres_count_after_test_refuted.
